@@ -1,6 +1,7 @@
 import SqlcModel.Query.Analyze
 import SqlcModel.GoGen.Query
 import SqlcModel.Gen.Untranslatable
+import SqlcModel.Spec.PgSem
 /-
 C02 — Result-row shape matches what the embedded SQL returns.
 
@@ -21,7 +22,7 @@ property is decided by the correspondence stream against the PgSem oracle (Spec/
 -/
 set_option linter.unusedSimpArgs false
 namespace Sqlc.C02
-open Sqlc Sqlc.Q Sqlc.GoGen
+open Sqlc Sqlc.Q Sqlc.GoGen Sqlc.Spec.Sem
 
 /-! ### the star arm of outputColumns and the star loop of expandStmt agree -/
 
@@ -184,6 +185,63 @@ theorem witness_star : (starColumns wTables "" none).map (·.name) = ["id", "nam
 
 theorem witness_star_names : (starNames "postgresql" wTables "" none).length = 3 := by
   rw [← C02_star_agree]; decide
+
+/-! ### one query level as the database sees it -/
+
+/-- one query level as the database sees it, built from the model's tables in scope -/
+def colInfoOf (c : Q.Column) : ColInfo := { name := c.name, dataType := c.dataType, notNull := c.notNull, isArray := c.isArray }
+def relOf (t : Table) : Rel := { qual := t.rel.name, cols := t.columns.map colInfoOf }
+def levelOf (tables : List Table) : Scope := tables.map relOf
+
+/-! ### one query level: star expansion refines the database's rule -/
+
+theorem star_names_all (tables : List Table) :
+    (starColumns tables "" none).map (·.name) = ((levelOf tables).flatMap (·.cols)).map (·.name) := by
+  unfold starColumns levelOf
+  induction tables with
+  | nil => rfl
+  | cons t ts ih =>
+    simp only [List.flatMap_cons, List.map_append, List.map_cons] at ih ⊢
+    rw [ih]
+    simp [relOf, colInfoOf, Function.comp_def]
+
+theorem star_names_qualified (tables : List Table) (q : String) (hq : q ≠ "") :
+    (starColumns tables q none).map (·.name) = (((levelOf tables).filter (·.qual == q)).flatMap (·.cols)).map (·.name) := by
+  unfold starColumns levelOf
+  induction tables with
+  | nil => rfl
+  | cons t ts ih =>
+    simp only [List.flatMap_cons, List.map_append, List.map_cons, List.filter_cons] at ih ⊢
+    rw [ih]
+    by_cases h : t.rel.name = q
+    · have h' : ¬ (q != t.rel.name) = true := by simp [h]
+      simp [relOf, colInfoOf, h, hq, Function.comp_def]
+    · have h' : (q != t.rel.name) = true := by simp; exact fun e => h e.symm
+      simp [relOf, colInfoOf, h, hq, h', Function.comp_def]
+
+/-- **C02 / C07, one level (refinement).** What the model puts for `*` and for `q.*` is, name by name and in
+the same order, what the database's rule (`PgSem.starOf` on that level alone) puts — for every list of tables in
+scope; and `q.*` with a qualifier no relation of the level carries is the one case the database rejects. -/
+theorem C02_star_refines (tables : List Table) :
+    (∃ cs, starOf (levelOf tables) [] = .ok cs ∧ cs.map (·.name) = (starColumns tables "" none).map (·.name)) ∧
+    (∀ q, q ≠ "" → (∃ t ∈ tables, t.rel.name = q) →
+      ∃ cs, starOf (levelOf tables) [q] = .ok cs ∧ cs.map (·.name) = (starColumns tables q none).map (·.name)) ∧
+    (∀ q, (∀ t ∈ tables, t.rel.name ≠ q) → starOf (levelOf tables) [q] = .error (.qualifierMissing q)) := by
+  refine ⟨⟨_, rfl, (star_names_all tables).symm⟩, ?_, ?_⟩
+  · intro q hq ⟨t, ht, htq⟩
+    have hne : ((levelOf tables).filter (·.qual == q)).isEmpty = false := by
+      rw [List.isEmpty_eq_false_iff_exists_mem]
+      refine ⟨relOf t, List.mem_filter.mpr ⟨List.mem_map.mpr ⟨t, ht, rfl⟩, by simp [relOf, htq]⟩⟩
+    refine ⟨((levelOf tables).filter (·.qual == q)).flatMap (·.cols), ?_, (star_names_qualified tables q hq).symm⟩
+    simp [starOf, hne]
+  · intro q hnone
+    have he : ((levelOf tables).filter (·.qual == q)) = [] := by
+      apply List.filter_eq_nil_iff.mpr
+      intro r hr
+      obtain ⟨t, ht, rfl⟩ := List.mem_map.mp hr
+      simp [relOf, hnone t ht]
+    simp [starOf, he]
+
 
 theorem translator_complete : Gen.untranslatable = [] := by decide
 
